@@ -466,11 +466,18 @@ def harnesses(tier):
         hs.append(Harness(f"table.{'-'.join(map(str, s))}", h_table, {"n": len(s), "slots": tuple(s)}, max_paths=2000))
     for L, R in ([(1, 1), (1, 2), (2, 1)] if q else [(1, 1), (1, 2), (2, 1), (2, 2), (1, 3), (3, 1), (2, 3)]):
         hs.append(Harness(f"inversion.{L}.{R}", h_inversion, {"L": L, "R": R}, max_paths=2000))
+    # the adapted binary search tree in several dimensions lives on a copula chain: same harness as C01's, obligations reported here
+    from .c01_rates import h_bsta_nd
+
+    hs.append(Harness("bsta.2d.1", h_bsta_nd, {"d": 2, "npts": 1, "prefix": "C02"}, max_paths=4000, batch=1))
+    hs.append(Harness("bsta.2d.2", h_bsta_nd, {"d": 2, "npts": 2, "prefix": "C02"}, max_paths=4000, batch=1))
+    if not q:
+        hs.append(Harness("bsta.3d.1", h_bsta_nd, {"d": 3, "npts": 1, "prefix": "C02"}, max_paths=4000, batch=1))
     hs.append(Harness("twin.alias", h_twin_alias, {"n": 2}, twin="must_fail"))
     return hs
 
 
-EXPECT = ["C02.alias.measure_equals_p", "C02.bst.measure_equals_p", "C02.huffman.measure_equals_p", "C02.table.measure_equals_p",
+EXPECT = ["C02.adapted_tree_nd.measure_times_intensity_is_cell_mass", "C02.alias.measure_equals_p", "C02.bst.measure_equals_p", "C02.huffman.measure_equals_p", "C02.table.measure_equals_p",
           "C02.inversion.measure_equals_p", "C02.alias.history_independent", "C02.alias.batch_equals_single",
           "C02.alias.never_returns_zero_probability_state", "C02.inversion.history_independent"]
 
